@@ -14,6 +14,7 @@ def run(ck):
     if ck.replay is None or "sched" in ck.replay:
         outs = ck.drive(b, ["replay"], input_lines=[{"script": x["script"], "sched": x["sched"]} for x in beh])
         byi = {o["i"]: o["o"] for o in outs}
+        stuck = []
         for i, x in enumerate(beh):
             o = byi[i]
             ck.count(json.dumps(x["sched"]), True)
@@ -26,8 +27,12 @@ def run(ck):
             elif o["get"] != x["get"] or o["hist"] != x["hist"]:
                 ck.violation("C13:history", "schedule %s: Get/History are %s / %s, expected %s / %s" % (x["sched"], o["get"], o["hist"], x["get"], x["hist"]), x)
             elif o["stuck"]:
-                raise vf.Infra("replay out of step: " + o["stuck"])
+                stuck.append("replay out of step: %s (schedule %s)" % (o["stuck"], x["sched"]))
         ck.traces += len(beh)
+        if stuck and not ck.viol:        # the word has other steps than the specification, and no replayed behaviour shows a wrong outcome
+            raise vf.Infra(stuck[0])
+        if stuck:
+            ck.notes.append("%d replayed behaviours went out of step with the specification (the outcomes were still judged)" % len(stuck))
         if ck.replay is not None:
             return
     nh = 1200 if ck.thorough else 240
